@@ -1,5 +1,8 @@
 import NavisModel.Model.Partition
 import NavisModel.Model.Zip
+import NavisModel.Model.Smart
+import NavisModel.Model.JobSpec
+import NavisModel.Gen.NblastJobs
 import NavisModel.Drv.Proto
 namespace Navis.Drv.C09
 open Navis.Partition Navis.Zip Navis.Proto
@@ -34,7 +37,7 @@ def showArg : Arg String → String
   | .scalar v => s!"s:{v}"
   | .many vs => "m:" ++ ",".intercalate vs
 
-def run (cmd : String) (rest : String) : Option String :=
+def run1 (cmd : String) (rest : String) : Option String :=
   match cmd with
   | "split" => match words rest with
     | [n, k] => do
@@ -91,5 +94,225 @@ def run (cmd : String) (rest : String) : Option String :=
       | _ => none
     | _ => none
   | _ => none
+
+/-! ### second pass -/
+open Navis.JobSpec
+
+def parseMask (s : String) : List (List Bool) :=
+  let s := trim s
+  if s.isEmpty then [] else (s.splitOn "/").map fun row => (trim row).toList.filterMap fun ch =>
+    if ch == '1' then some true else if ch == '0' then some false else none
+
+def maskFn (m : List (List Bool)) : Nat → Nat → Bool := fun r c => (m.getD r []).getD c false
+
+def parseMat (s : String) : Nat → Nat → Option String :=
+  let rows := parseBlock s
+  fun r c => (rows[r]?).bind (·[c]?)
+
+def showPairs (l : List (Nat × Nat)) : String := ",".intercalate (l.map fun p => s!"{p.1}:{p.2}")
+
+/-- `q..;t..;v,v,v` -/
+def parseJobVals (s : String) : Option (Job × List String) :=
+  match s.splitOn ";" with
+  | [q, t, b] => do
+    let q ← natList? q
+    let t ← natList? t
+    pure (⟨q, t⟩, strList b)
+  | _ => none
+
+def program? : String → Option Program
+  | "nblast" => some Gen.NblastJobs.nblast
+  | "allbyall" => some Gen.NblastJobs.allbyall
+  | "smartPre" => some Gen.NblastJobs.smartPre
+  | "synblast" => some Gen.NblastJobs.synblast
+  | "nblastAlign" => some Gen.NblastJobs.nblastAlign
+  | _ => none
+
+def showEnts (l : List Ent) : String :=
+  ",".intercalate (l.map fun e => s!"{e.neuron.1}:{e.neuron.2}") ++ ";" ++
+  ",".intercalate (l.map fun e => match e.selfHit with | some (n, i) => s!"{n}:{i}" | none => "-")
+
+/-- value syntax: `N` | `a:<tok>` | `s:<tok,tok>` | `d:<k=v,k=v>:<others>` | `u` | `x:<len>` -/
+def parseVal? (s : String) : Option (Val String) :=
+  let s := trim s
+  if s == "N" then some .pyNone
+  else if s == "u" then some .unsized
+  else match s.splitOn ":" with
+    | ["a", v] => some (.atom v)
+    | ["s", vs] => some (.seq (strList vs))
+    | ["x", k] => k.toNat?.map .unindexable
+    | ["d", kvs, o] => do
+      let o ← o.toNat?
+      let kvs ← (strList kvs).mapM fun kv => match kv.splitOn "=" with
+        | [k, v] => k.toNat?.map fun k => (k, v)
+        | _ => none
+      pure (.dict kvs o)
+    | _ => none
+
+def showVal : Val String → String
+  | .pyNone => "N"
+  | .atom v => s!"a:{v}"
+  | .seq vs => "s:" ++ ",".intercalate vs
+  | .dict kvs o => "d:" ++ ",".intercalate (kvs.map fun kv => s!"{kv.1}={kv.2}") ++ s!":{o}"
+  | .unsized => "u"
+  | .unindexable k => s!"x:{k}"
+
+def parseKw? (s : String) : Option (String × Val String) :=
+  match (trim s).splitOn "~" with
+  | [k, v] => (parseVal? v).map fun v => (trim k, v)
+  | _ => none
+
+def showCall (i : Nat) (c : Call Nat String) : String :=
+  let first := match c.first with
+    | .inl x => s!"n{x}"
+    | .inr xs => "L" ++ showNats xs
+  s!"{i}({first}|" ++ " ".intercalate (c.args.map showVal) ++ "|" ++
+    " ".intercalate (c.kwargs.map fun kv => kv.1 ++ "~" ++ showVal kv.2) ++ ")"
+
+def parseRet? (s : String) : Option (Ret String String) :=
+  let s := trim s
+  if s == "0" then some .nothing else
+  match s.splitOn ":" with
+  | ["n", x] => some (.neuron x)
+  | ["l", xs] => some (.neurons (strList xs))
+  | ["o", v] => some (.other v)
+  | _ => none
+
+def showRet : Ret String String → String
+  | .neuron x => s!"n:{x}"
+  | .neurons xs => "l:" ++ ",".intercalate xs
+  | .nothing => "0"
+  | .other v => s!"o:{v}"
+
+def optBool? (s : String) : Option (Option Bool) :=
+  if s == "-" then some none else if s == "1" then some (some true) else if s == "0" then some (some false) else none
+
+def run2 (cmd : String) (rest : String) : Option String :=
+  match cmd with
+  | "assembleboth" => match rest.splitOn "|" with
+    | hd :: blocks => match words hd with
+      | [nq, nt] => do
+        let nq ← nq.toNat?; let nt ← nt.toNat?
+        let bs ← blocks.mapM parseJobBlock
+        pure (showMat (2 * nq) nt (assembleBlocks (bs.map fun jb => (bothJob jb.1, jb.2))))
+      | _ => none
+    | _ => none
+  | "choose" => match words rest with
+    | [kind, nc, pg, p1, p2, nq, nt] => do
+      let nc ← if nc == "none" then some none else nc.toNat?.map some
+      let p1 ← p1.toNat?; let p2 ← p2.toNat?; let nq ← nq.toNat?; let nt ← nt.toNat?
+      let r := if kind == "nblast" then chooseNblast nc (pg == "1") p1 p2 nq nt
+               else chooseSimple nc (pg == "1") p1 nq nt
+      match r with
+      | some (r, c) => pure s!"{r} {c} {if multiJob nc r c then 1 else 0}"
+      | none => pure "none"
+    | _ => none
+  | "npb" => match words rest with
+    | [t, a, b] => do
+      let t ← t.toNat?; let a ← a.toNat?; let b ← b.toNat?
+      pure (toString (neuronsPerBatch t a b))
+    | _ => none
+  | "smartjob" => match rest.splitOn "|" with
+    -- "nq nt" | mask | qix;tix    → pairs (model) ; pairs (source facts) ; cells of the job mask (model) ; … (source facts)
+    | [hd, m, jt] => match words hd, jt.splitOn ";" with
+      | [nq, nt], [q, t] => do
+        let nq ← nq.toNat?; let nt ← nt.toNat?
+        let q ← natList? q; let t ← natList? t
+        let mask := maskFn (parseMask m)
+        let j : Job := ⟨q, t⟩
+        let cells := fun (jm : Option (Nat → Nat → Bool)) => match jm with
+          | some jm => showPairs (Smart.maskCells nq nt jm)
+          | none => "RAISE"
+        pure (showPairs (Smart.pairs mask j) ++ ";" ++ showPairs (Gen.NblastJobs.smartFull.pairs mask j) ++ ";" ++
+              cells (Smart.jobMask mask j) ++ ";" ++ cells (Gen.NblastJobs.smartFull.jobMask mask j))
+      | _, _ => none
+    | _ => none
+  | "smartrefine" => match rest.splitOn "|" with
+    -- "nq nt" | mask | scr matrix | q;t;vals | …
+    | hd :: m :: scr :: blocks => match words hd with
+      | [nq, nt] => do
+        let nq ← nq.toNat?; let nt ← nt.toNat?
+        let mask := maskFn (parseMask m)
+        let bs ← blocks.mapM parseJobVals
+        match Smart.refineBlocks mask nq nt (parseMat scr) bs with
+        | some s => pure (showMat nq nt s)
+        | none => pure "RAISE"
+      | _ => none
+    | _ => none
+  | "prog" => match rest.splitOn ";" with
+    -- name ; qix ; tix ; enum
+    | [name, q, t, e] => do
+      let p ← program? (trim name)
+      let q ← natList? q; let t ← natList? t; let e ← natList? e
+      let env := p.env e ⟨q, t⟩
+      pure (showEnts (p.localList env) ++ ";" ++ showNats (p.submitQ.eval env) ++ ";" ++ showNats (p.submitT.eval env) ++ ";" ++
+            showNats (p.placeRows.eval env) ++ ";" ++ showNats (p.placeCols.eval env) ++ ";" ++
+            (match p.bothRows with | some b => showNats (b.eval env) | none => "-") ++ ";" ++
+            s!"{p.indexRows}:{p.indexCols}:{p.submitMethod}:{p.submitScores}")
+    | _ => none
+  | "smartprog" => match rest.splitOn ";" with
+    | [q, t] => do
+      let q ← natList? q; let t ← natList? t
+      pure (showEnts (Gen.NblastJobs.smartFull.localList ⟨q, t⟩))
+    | _ => none
+  | "zipw" => match rest.splitOn "|" with
+    -- "n omit cs fails exclPos exclKw" | positional args (blank separated) | kwargs (blank separated k~v)
+    | [hd, as, kws] => match words hd with
+      | [n, om, cs, fails, ep, ek] => do
+        let n ← n.toNat?; let cs ← cs.toNat?
+        let fails ← if fails == "-" then some [] else natList? fails
+        let ep ← if ep == "-" then some [] else natList? ep
+        let ek := if ek == "-" then [] else strList ek
+        let args ← (words as).mapM parseVal?
+        let kwargs ← (words kws).mapM parseKw?
+        let f := fun (i : Nat) (c : Call Nat String) => if i ∈ fails then none else some (showCall i c)
+        let r := if cs == 0 then processW f (List.range n) ep ek args kwargs (om == "1")
+                 else processWParallel f (List.range n) ep ek args kwargs (om == "1") cs
+        match r with
+        | some out => pure ("&".intercalate out)
+        | none => pure "RAISE"
+      | _ => none
+    | _ => none
+  | "finish" => do
+    let rs ← (words rest).mapM parseRet?
+    match finish rs with
+    | .neuronlist xs => pure ("NL:" ++ ",".intercalate xs)
+    | .nothing => pure "NONE"
+    | .list rs => pure ("LIST:" ++ " ".intercalate (rs.map showRet))
+  | "mapnl" => match rest.splitOn "|" with
+    -- "canzip mustzip allowpar sighas sigdef n nargs parallel inplaceKw omitKw" | kwargs
+    | [hd, kws] => match words hd with
+      | [cz, mz, ap, sh, sd, n, na, par, ik, ok] => do
+        let n ← n.toNat?; let na ← na.toNat?
+        let ik ← optBool? ik; let ok ← optBool? ok
+        let kwargs ← (words kws).mapM parseKw?
+        let cfg : MapCfg := ⟨if cz == "-" then [] else strList cz, if mz == "-" then [] else strList mz,
+                             ap == "1", sh == "1", sd == "1"⟩
+        match mapNeuronlist cfg n na kwargs (par == "1") ik ok with
+        | .ok p => pure (s!"OK pos={showNats p.exclPos} kw=" ++ ",".intercalate p.exclKw ++ " passed=" ++
+                         ",".intercalate p.passed ++ s!" force={if p.forceInplace then 1 else 0} swap={if p.swapInplace then 1 else 0} omit={if p.omitFailures then 1 else 0}")
+        | .error e => pure ("ERR " ++ (match e with
+            | .noParallel => "noParallel" | .canZipLen => "canZipLen" | .mustZipLen => "mustZipLen" | .typeError => "typeError"))
+      | _ => none
+    | _ => none
+  | "mapdf" => match words rest with
+    -- n omit fails  → "id:resultOf" pairs as `map_neuronlist_df` labels them
+    | [n, om, fails] => do
+      let n ← n.toNat?
+      let fails ← if fails == "-" then some [] else natList? fails
+      match mapDfW (fun (x : Nat) => if x ∈ fails then none else some x) (List.range n) (om == "1") with
+      | some out => pure (",".intercalate (out.map fun p => s!"{p.1}:{p.2}"))
+      | none => pure "RAISE"
+    | _ => none
+  | "facts" =>
+    pure (s!"batchCores={Gen.NblastJobs.batchCalls.map (·.2)} maps={Gen.NblastJobs.mapSites.map (·.2)} " ++
+          s!"exclStart={Gen.NblastJobs.exclPosStart} smartDecl={Gen.NblastJobs.smartFull.declOk} " ++
+          s!"grid={[Gen.NblastJobs.nblast, Gen.NblastJobs.allbyall, Gen.NblastJobs.smartPre, Gen.NblastJobs.synblast, Gen.NblastJobs.nblastAlign].map (·.gridOk)}")
+  | _ => none
+
+def run (cmd : String) (rest : String) : Option String :=
+  match run1 cmd rest with
+  | some r => some r
+  | none => run2 cmd rest
 
 end Navis.Drv.C09
